@@ -115,7 +115,7 @@ func rulesC09(c *Ctx) {
 						missed = "the enclosing loop can start its next iteration"
 					}
 					for _, r := range returnsOf(ci.fn) {
-						if ri.Reaches(r) && classifyErr(fi, r.Block(), r.Results[0], 0) != errNonNil {
+						if ri.ReachesSuccess(r, 0) {
 							missed = "a successful return at " + p.Pos(r.Pos()) + " is reachable"
 						}
 					}
